@@ -357,7 +357,7 @@ func runConcFile(cc *ConcCase, tr *Tr) error {
 			go func(g int, op string, eb *evbuf) {
 				defer wg.Done()
 				<-start
-				concFileOp(node, g+1, op, content, eb)
+				concFileOp(node, g%4+1, op, content, eb) // the trace names four readers; each goroutine's events are emitted together, an open starts a reader afresh
 			}(g, op, bufs[g])
 		}
 		close(start)
@@ -563,8 +563,13 @@ func init() {
 		if *what != "file" {
 			return nil
 		}
+		// many readers at once (more than any small pool of slots a reader might draw from)
+		many := make([]string, 48)
+		for i := range many {
+			many[i] = []string{"read-3", "asbytes", "read-100", "seekread"}[i%4]
+		}
 		for _, ops := range [][]string{{"read-1", "read-2"}, {"read-3", "asbytes"}, {"read-100", "seekread", "read-4"}, {"asbytes", "asbytes", "seekread", "read-2"},
-			{"seekmany", "seekmany", "seekmany", "seekmany"}} {
+			{"seekmany", "seekmany", "seekmany", "seekmany"}, many} {
 			for _, nw := range [][2]int{{5, 2}, {9, 3}} {
 				cc := &ConcCase{Fam: "conc", ID: fmt.Sprintf("conc-file-%d-%d-%v", nw[0], nw[1], ops), What: "file", N: nw[0], W: nw[1], Ops: ops, Reps: *reps}
 				if err := runConcFile(cc, tr); err != nil {
